@@ -1,0 +1,56 @@
+//go:build verif
+
+package libp2p
+
+import (
+	"net"
+
+	libp2pcrypto "github.com/libp2p/go-libp2p/core/crypto"
+	libp2pnetwork "github.com/libp2p/go-libp2p/core/network"
+	"github.com/libp2p/go-libp2p/core/peer"
+
+	keepNet "github.com/keep-network/keep-core/pkg/net"
+	"github.com/keep-network/keep-core/pkg/operator"
+)
+
+// Verification hook (build tag verif): re-exports existing identifiers only.
+
+// VerifC20InboundHandshake runs newAuthenticatedInboundConnection (the
+// responder side of the connection handshake) and returns its error.
+func VerifC20InboundHandshake(
+	conn net.Conn,
+	localPeerID peer.ID,
+	privateKey libp2pcrypto.PrivKey,
+	firewall keepNet.Firewall,
+	protocol string,
+) error {
+	_, err := newAuthenticatedInboundConnection(
+		conn, libp2pnetwork.ConnectionState{}, localPeerID, privateKey, firewall, protocol,
+	)
+	return err
+}
+
+// VerifC20OutboundHandshake runs newAuthenticatedOutboundConnection (the
+// initiator side of the connection handshake) and returns its error.
+func VerifC20OutboundHandshake(
+	conn net.Conn,
+	localPeerID peer.ID,
+	privateKey libp2pcrypto.PrivKey,
+	remotePeerID peer.ID,
+	firewall keepNet.Firewall,
+	protocol string,
+) error {
+	_, err := newAuthenticatedOutboundConnection(
+		conn, libp2pnetwork.ConnectionState{}, localPeerID, privateKey, remotePeerID, firewall, protocol,
+	)
+	return err
+}
+
+// VerifC20NetworkKeyPair re-exports operatorPrivateKeyToNetworkKeyPair.
+func VerifC20NetworkKeyPair(operatorPrivateKey *operator.PrivateKey) (
+	*libp2pcrypto.Secp256k1PrivateKey,
+	*libp2pcrypto.Secp256k1PublicKey,
+	error,
+) {
+	return operatorPrivateKeyToNetworkKeyPair(operatorPrivateKey)
+}
